@@ -100,6 +100,14 @@ Proof.
   - apply (is_derive_ext (fun p => 15 * sin p ^ 3)); [intros; rewrite P33; reflexivity|]. rewrite P33, (Plm_lt 3 4) by lia. auto_derive; [exact I|field; exact Hs].
 Qed.
 
+(* if the routine carries a factor sign(sin phi)^k (for polar angles outside [0, pi]), it is 1 on [0, pi] *)
+Ltac sin_sign_one ph Hph :=
+  try (match goal with |- context [Rlt_dec (sin ph) 0] =>
+         let Hneg := fresh "Hneg" in
+         destruct (Rlt_dec (sin ph) 0) as [Hneg|_];
+         [exfalso; pose proof (sin_ge_0 ph (proj1 Hph) (proj2 Hph)); lra|] end);
+  rewrite ?powerRZ_R1.
+
 Section Polar.
   Variables sre sim : Z -> Z -> R -> R -> R.
   (* scipy.special.sph_harm_y(n, m, polar, azimuth) for 1 <= m, polar angle in [0, pi]:
@@ -120,7 +128,7 @@ Section Polar.
     snd (g_dstep sre sim (Z.of_nat l) (Z.of_nat a) th ph (sph_model L th ph)) =
     Nlm l a * (INR a * cotc ph * Plm l a (sin ph) (cos ph) - Plm l (S a) (sin ph) (cos ph)) * az (Z.of_nat a) th.
   Proof.
-    intros HL Ha Hph. unfold g_dstep. fold (cotc ph).
+    intros HL Ha Hph. unfold g_dstep. fold (cotc ph). sin_sign_one ph Hph.
     unfold znth. rewrite !index_m_iota. destruct (output_order_lemma L th ph) as [_ Ho]. rewrite !Ho by lia.
     replace (Z.abs (Z.of_nat a) + 1)%Z with (Z.of_nat (S a)) by lia.
     destruct (sphy_spec l (S a) th ph Hph ltac:(lia)) as [Hre Him]. rewrite Hre, Him.
@@ -158,7 +166,7 @@ Section Polar.
     snd (g_dstep sre sim (Z.of_nat l) (- Z.of_nat a) th ph (sph_model L th ph)) =
     Nlm l a * (INR a * cotc ph * Plm l a (sin ph) (cos ph) - Plm l (S a) (sin ph) (cos ph)) * az (- Z.of_nat a) th.
   Proof.
-    intros HL Ha Hph. unfold g_dstep. fold (cotc ph).
+    intros HL Ha Hph. unfold g_dstep. fold (cotc ph). sin_sign_one ph Hph.
     unfold znth. rewrite !index_m_iota. destruct (output_order_lemma L th ph) as [_ Ho]. rewrite !Ho by lia.
     replace (Z.abs (- Z.of_nat a) + 1)%Z with (Z.of_nat (S a)) by lia.
     destruct (sphy_spec l (S a) th ph Hph ltac:(lia)) as [Hre Him]. rewrite Hre, Him.
